@@ -237,7 +237,7 @@ def parse_stmt(line):
         if cond.startswith('!'): neg=True; cond=cond[1:]
         return ('assert', neg, parse_operand(cond), args[1:], parse_targets(rest[2:]))
     for kw in ('StorageLive','StorageDead','PlaceMention','FakeRead','Retag','AscribeUserType','Coverage','ConstEvalCounter','BackwardIncompatibleDropHint'):
-        if s.startswith(kw+'('): return ('noop',kw)
+        if s.startswith(kw+'(') or s==kw: return ('noop',kw)
     m=re.match(r'^discriminant\((.*)\) = (\d+)$', s)
     if m: return ('setdisc', parse_place(m.group(1)), int(m.group(2)))
     if s.startswith('Deinit('): return ('noop','Deinit')
